@@ -26,6 +26,7 @@ Matches(r) ==
       [] r = "tests/"        -> {"tests/t1.lua"}
       [] r = "beta/th.*lua"  -> {"beta/three.lua"}
       [] r = "alpha/"        -> {"alpha/one.lua", "alpha/two.lua"}
+      [] r = "c++/"          -> {"c++/bind.lua"}            \* a literal folder name that is not a valid regular expression
       [] OTHER               -> {}
 
 Sources == {"init", "change", "json"}
